@@ -31,7 +31,7 @@ def deltaDomain : List Bool := [false, true]
 def rleDomain : List Bool := [false, true]
 def packDomain : List (Option Nat) := [none, some 1, some 2]
 def stageOrder : List String := ["DeltaEncoding", "RunLengthEncoding", "IntegerPackingEncoding", "ByteArrayEncoding"]
-def chainExtends : List (String × String) := [("encodings_after_rle", "encodings_after_delta"), ("encodings_after_packing", "encodings_after_rle"), ("encodings", "encodings_after_packing")]
+def chainExtends : List (String × String) := [("v0", "v1"), ("v2", "v0"), ("v3", "v2")]
 /-- `_to_smallest_integer_type`: the unsigned and the signed type ladder, in the order tried. -/
 def unsignedLadder : List String := ["u8", "u16", "u32", "u64"]
 def signedLadder : List String := ["i8", "i16", "i32", "i64"]
